@@ -10,7 +10,7 @@ for S in $SEEDS; do
   git -C /repo checkout -q -- . ; git -C /repo apply /verif/seeded/$S/patch.diff || { printf "%s\t%s\tPATCH-DOES-NOT-APPLY\t\n" $S $P >> $OUT; continue; }
   KV_EVIDENCE_DIR=/verif/work/seed-evidence KV_REPLAY_DIR=/verif/work/seed-replay ./check $P --tier $TIER > work/seed_$S.out 2>&1; rc=$?
   git -C /repo checkout -q -- .
-  sig=$(grep -m1 "^  signature=" work/seed_$S.out | sed 's/^  signature=//' | cut -c1-160)
+  sig=$(grep -a -m1 "^  signature=" work/seed_$S.out | sed 's/^  signature=//' | cut -c1-160)
   printf "%s\t%s\t%s\t%s\n" $S $P $rc "$sig" >> $OUT
 done
 cat $OUT
